@@ -16,7 +16,7 @@ from concurrent.futures import ThreadPoolExecutor
 
 from . import core
 
-TAGS = {-1: '<em>', -2: '</em>', -3: '<strong>', -4: '</strong>'}
+TAGS = {-1: '<em>', -2: '</em>', -3: '<strong>', -4: '</strong>', -5: '<a href="u">', -6: '</a>', -7: '](u)'}
 
 
 def expected_html(text, out):
@@ -94,6 +94,32 @@ def run():
                 if got != want:
                     ck.violation('delimiter algorithm: input=%r expected=%r observed=%r' % (text, want, got),
                                  {'input': text, 'expected': want, 'observed': got, 'clause': 'Emphasis.structure' if not got.startswith('EXCEPTION') else 'Emphasis.failure'})
+    # brackets: "look for link or image" interleaved with "process emphasis" (spec/InlineLinks.tla); "]" is written "](u)"
+    six = ['a', ' ', '*', '_', '[', ']']
+    shards6 = [''] + [x + y for x in six if x != ' ' for y in six]
+
+    def one_links(sh):
+        return core.tlc('InlineLinks', 'InlineLinksQ.cfg' if quick else 'InlineLinksT.cfg', workers=1, env={'SHARD': sh}, timeout=3000, heap='2g')
+    with ThreadPoolExecutor(max_workers=core.NCPU) as ex:
+        lres = list(ex.map(one_links, shards6))
+    n_links = 0
+    for res in lres:
+        ck.add_tlc(res)
+        for rec in res.printed_json():
+            cls = rec['input']
+            text = cls.replace(']', '](u)')
+            # positions in `out` refer to the class string; rebuild the expected HTML from it
+            want = ''.join(TAGS[t] if t < 0 else html.escape(cls[t - 1], quote=False) for t in rec['out'])
+            got = observed(m, text)
+            ck.count(('links', cls) if ('[' in cls and ']' in cls) else None)
+            n_links += 1
+            ck.traces += 1
+            if n_links % 9973 == 1:
+                ck.sample({'input': text, 'expected': want, 'observed': got})
+            if got != want:
+                ck.violation('links and emphasis: input=%r expected=%r observed=%r' % (text, want, got),
+                             {'input': text, 'expected': want, 'observed': got, 'clause': 'Inline.links-and-emphasis' if not got.startswith('EXCEPTION') else 'Emphasis.failure'})
+    ck.extra['strings_with_brackets'] = n_links
     ck.extra['exhaustive_strings'] = n_exh
     # random strings over the wide alphabet: TLC computes the expected structure of their class strings in batch
     n_rand = 4000 if quick else 100000
